@@ -185,6 +185,8 @@ func (ps *PartSet) Count() int {
 	if ps == nil {
 		return 0
 	}
+	ps.mtx.Lock()
+	defer ps.mtx.Unlock()
 	return ps.count
 }
 
@@ -230,6 +232,8 @@ func (ps *PartSet) GetPart(index int) *Part {
 }
 
 func (ps *PartSet) IsComplete() bool {
+	ps.mtx.Lock()
+	defer ps.mtx.Unlock()
 	return ps.count == ps.total
 }
 
